@@ -17,6 +17,7 @@ CLASSES = {
 INDEX_POOLS = [[0, 1, 2], [0, 1, 2, 3], [0, 1, 10, 11], [3, 64, 7, 12], [0, 1]]
 
 def rand_coeff(rng, kind=None):
+    if kind is None and rng.random() < 0.04: return rng.choice([0, 0.0, 0j])     # exactly zero coefficients / scalars now and then
     kind = kind or rng.choice(['int', 'float', 'complex', 'complex', 'dyadic'])
     if kind == 'int': return rng.choice([1, -1, 2, 3, -2, 5])
     if kind == 'float': return float(rng.choice([1, -1, 2, 3, -3, 0.5, -0.25, 1.5, 0.75]))
@@ -207,6 +208,18 @@ def run(ctx):
             ctx.violation('C01 %s: implementation raised %s on a well-formed program' % (cname, err),
                           {'class': cname, 'program': jsonable_prog(prog), 'error': err,
                            'finding': classify_exception(prog, err)})
+            continue
+        # representation invariant of the classes with a canonical term form, also for keys whose coefficient is exactly zero
+        bad_key = None
+        for dump in trace:
+            for x, d in dump:
+                for t in d:
+                    idx = [f[0] for f in t]
+                    if cname in ('qubit', 'ising') and (idx != sorted(set(idx)) or any(f[1] == 'I' for f in t)): bad_key = (x, t)
+                    if cname in ('boson', 'quad') and idx != sorted(idx): bad_key = (x, t)
+        if bad_key is not None:
+            ctx.count('programs', 1)
+            ctx.violation('C01 %s: variable %d holds the non-canonical term %r' % (cname, bad_key[0], bad_key[1]), {'class': cname, 'program': jsonable_prog(prog)})
             continue
         if not exact_ok(trace):
             ctx.stat('programs', 'discarded_inexact'); continue
